@@ -368,3 +368,140 @@ class C28Trigger(Base):
         d = dict(self.n)
         d['dropped_members'] = sum(len(r['dropped']) for r in self.recs)
         return d
+
+
+class C32ClockExpire(Base):
+    """Only eligible tasks expire, only after their time; an expired task
+    never submits; the expired output spawns exactly the expire children."""
+    NAME = 'c32'
+    PID = 'C32'
+
+    def __init__(self, case, phase):
+        super().__init__(case, phase)
+        self.expired: Dict[str, int] = {}     # id -> iteration
+        self.bracket = None
+        self.manual_ids: Set[str] = set()
+
+    def on_event(self, ev):
+        from vlib.gen import c32gen
+        k = ev['k']
+        gt = self.gt
+        if k == 'CMD_EXEC' and ev['cmd'] in ('force_trigger_tasks', 'set'):
+            from vlib.e1.monitors import match_ids
+            ids = match_ids(ev['args'].get('tasks') or [],
+                            ev.get('pool') or [], gt)
+            for tid in ids:
+                # (a group member with a prerequisite on another member is
+                # not itself triggered: it runs when that is satisfied)
+                if ev['cmd'] == 'set' or not c32gen.in_group_parent(
+                        gt, tid, ids):
+                    self.manual_ids.add(tid)
+                else:
+                    # re-spawned from scratch as an ordinary waiting task
+                    self.manual_ids.discard(tid)
+                    self.expired.pop(tid, None)
+        elif k == 'STATE' and ev['after'][0] == 'expired' and \
+                ev['before'][0] != 'expired':
+            tid = ev['id']
+            p, n = tid.split('/', 1)
+            self.n['expiries'] += 1
+            now = self.drv.vclock.now
+            if n not in gt['expire_offset']:
+                self.v('task-without-clock-expire-expired',
+                       f'{tid} expired but is not a clock-expire task', ev)
+                return
+            if ev.get('forced'):
+                self.n['forced_expiries'] += 1
+                return
+            if ev['before'][0] != 'waiting':
+                self.v('non-waiting-task-expired',
+                       f'{tid} expired from status {ev["before"][0]}', ev)
+            t_exp = c32gen.expire_time(gt, n, p)
+            if now < t_exp:
+                self.v('expired-before-time',
+                       f'{tid} expired at {now} but its expiry time is '
+                       f'{t_exp} (point + {gt["expire_offset"][n]}s)', ev)
+            else:
+                self.n['expired_after_time'] += 1
+                self.maxlag = max(getattr(self, 'maxlag', 0), now - t_exp)
+            schd = self.drv.schd
+            it = schd.pool._get_task_by_id(tid)
+            if (it is not None and it.is_manual_submit) or \
+                    tid in self.manual_ids:
+                self.v('manually-triggered-task-expired',
+                       f'{tid} expired although it was manually triggered',
+                       ev)
+            self.expired[tid] = self.drv.bus.it
+        elif k == 'PREP':
+            for t in ev['tasks']:
+                if t['status'] != 'waiting':
+                    continue
+                self.n['preparations'] += 1
+                if t['id'] in self.expired and \
+                        t['id'] not in self.manual_ids:
+                    self.v('expired-task-submitted',
+                           f'{t["id"]} expired at iteration '
+                           f'{self.expired[t["id"]]} and then entered job '
+                           'preparation', t)
+                # a task whose time had passed long ago should have expired
+                # instead (recorded, not judged: the statement is "only if")
+                n = t['name']
+                if n in gt['expire_offset'] and not t['manual'] and \
+                        t['id'] not in self.manual_ids:
+                    t_exp = c32gen.expire_time(gt, n, t['point'])
+                    if self.drv.vclock.now >= t_exp:
+                        self.n['prepared_past_expiry_time'] += 1
+        elif k == 'SPAWN_IN' and ev['output'] == 'expired':
+            self.bracket = {'ev': ev, 'adds': []}
+        elif k == 'POOL_ADD' and self.bracket is not None:
+            self.bracket['adds'].append(ev['task'])
+        elif k == 'SPAWN_OUT' and ev['output'] == 'expired' and \
+                self.bracket is not None:
+            br, self.bracket = self.bracket, None
+            tid = ev['id']
+            p, n = tid.split('/', 1)
+            kids = set(c32gen.expire_kids(gt, n, p))
+            self.n['expire_spawn_checks'] += 1
+            for t in br['adds']:
+                if t['id'] in kids:
+                    continue
+                if t['name'] == n and not t['prereqs']:
+                    continue         # next parentless instance of itself
+                self.v('expire-spawned-non-child',
+                       f'{t["id"]} was added to the pool when {tid} '
+                       f'completed its expired output but is not one of its '
+                       f'expire children {sorted(kids)}', t)
+            pool = self.drv.schd.pool
+            for kid in kids:
+                it = pool._get_task_by_id(kid)
+                self.n['expire_child_checks'] += 1
+                if it is None:
+                    if br['ev']['flows']:
+                        self.n['expire_child_not_in_pool'] += 1
+                    continue
+                ok = any(
+                    bool(v) for pr in it.state.prerequisites
+                    for key, v in pr.items()
+                    if key.task == n and str(key.point) == p
+                    and key.output == 'expired')
+                if not ok:
+                    self.v('expire-child-not-satisfied',
+                           f'{kid} is in the pool but its prerequisite '
+                           f'{tid}:expired is not satisfied after the '
+                           'expired output was completed', {'id': kid})
+
+    def after_iter(self, drv, pool_snap):
+        from vlib.gen import c32gen
+        gt = self.gt
+        now = drv.vclock.now
+        for t in pool_snap:
+            n = t['name']
+            if n in gt['expire_offset'] and t['status'] == 'waiting' and \
+                    not t['manual'] and t['id'] not in self.manual_ids:
+                if now >= c32gen.expire_time(gt, n, t['point']):
+                    self.n['eligible_waiting_past_time_iterations'] += 1
+
+    def summary(self, drv):
+        d = dict(self.n)
+        d['max_expiry_lag_seconds'] = getattr(self, 'maxlag', 0)
+        return d
